@@ -122,8 +122,13 @@ def execute(scn):
                     sts[n]['apps'][la]['models'])) and \
                 history.mutations_between(P, i, n, app=a):
             unchanged = True
+    from evosim.props import c02
+    merged = c02._merged_initials({'project': {'apps': {'va': {'steps': [
+        {'evos': [{'mutations': [m for m in muts
+                                 if m['op'] != 'NewModel']}]}]}}}})
     detail = dict(start=i, n=n, driver=scn['driver'], simple=scn['simple'],
                   clean=not lossy, app_unchanged=unchanged,
+                  merged_initials=merged,
                   ops_str=' '.join(c03.mut_tags({'muts': muts})), **feats)
     fault = scn.get('fault')
     res = {'violations': viols, 'stats': stats, 'nontrivial': False,
@@ -212,12 +217,37 @@ def execute(scn):
         user = [t for t in set(sd['tables']) | set(ss['tables'])
                 if not t.startswith(('django_', 'sqlite_'))]
         for d in c03.compare_outcomes(sd, ss, user):
+            if d[0] == 'rows':
+                continue        # judged below on preserved columns only
             rule = {'table_set': 'C04.schema_paths_differ',
-                    'schema': 'C04.schema_paths_differ',
-                    'rows': 'C04.rows_paths_differ'}[d[0]]
+                    'schema': 'C04.schema_paths_differ'}[d[0]]
             viols.append(violation(rule, table=d[1],
                                    what=[str(x) for x in d[2:]][:6],
                                    **detail))
+        # 'the same preserved data': columns that held data at the start
+        # version and still exist at the end (fill values of columns added
+        # on the way are not preserved data)
+        for t in sorted(rows_i):
+            if not rows_i[t] or t not in sd['tables'] or t not in \
+                    ss['tables']:
+                continue
+            cols = [c for c in sorted(rows_i[t][0])
+                    if c in sd['tables'][t]['order']
+                    and c in ss['tables'][t]['order']]
+
+            def proj_rows(snap):
+                order = snap['tables'][t]['order']
+                idx = [order.index(c) for c in cols]
+                return sorted([tuple(r[k] for k in idx)
+                               for r in snap['tables'][t]['rows']], key=repr)
+            if proj_rows(sd) != proj_rows(ss):
+                viols.append(violation('C04.rows_paths_differ', table=t,
+                                       columns=cols, **detail))
+            want = sorted([tuple(r[c] for c in cols) for r in rows_i[t]],
+                          key=repr)
+            if 'id' in cols and len(want) != len(proj_rows(sd)):
+                viols.append(violation('C04.rows_lost', table=t,
+                                       path='direct', **detail))
         if common.labels_of(sd) != common.labels_of(ss):
             viols.append(violation('C04.labels_differ', a='direct',
                                    b='stepwise', **detail))
